@@ -80,7 +80,8 @@ def generate(seed, idx, tier):
   rng = derive_rng(seed, 'C14', idx)
   family = wpick(rng, [('ds_full', 4), ('ds_q', 2), ('ds_lr', 2), ('ds_fd', 2),
                        ('ds_sharded', 2), ('sm3', 2), ('tf_shampoo', 3),
-                       ('tf_sketchy', 3), ('sm3_eager', 1), ('tf_eager', 1)])
+                       ('tf_sketchy', 3), ('sm3_eager', 1), ('tf_eager', 1),
+                       ('ds_eager', 1)])
   if family.startswith('ds'):
     plan = _ds_plan(rng, family, tier)
     n_leaves = len(plan['tree'])
@@ -112,7 +113,7 @@ def generate(seed, idx, tier):
              cfg['graft']['start_preconditioning_step']}
   T = rng.randrange(4, 9) if tier == 'quick' else rng.randrange(6, 13)
   if plan.get('mode') == 'eager':
-    T = min(T, 5)
+    T = min(T, 5 if not family.startswith('ds') else 3)
   rate = 0.0 if rng.random() < 0.6 else 0.15
   # non-finite input makes the unguarded LAPACK svd/qr of the DS
   # frequent-directions path hang (out-of-scope observation, DESIGN 6)
